@@ -165,7 +165,6 @@ def run(ctx):
                 ("steady 2x2 timeouts", MC_CLEAN, consts(sweeps=2, ff=True, pn=True, to=True)),
                 ("steady 3x1 max3", MC_CLEAN, consts(clients=3, rounds=1, max=3, sweeps=1, ff=True, pn=True)),
                 ("scale-in 2x2 cut", MC_CUT, consts(sweeps=1, ticks=1, ff=True, pn=True)),
-                ("all 2x2 cut", MC_CUT, consts(sweeps=1, ticks=1, setcap=2, close=True)),
                 ("all 2x1 two ticks cut", MC_CUT, consts(rounds=1, sweeps=1, ticks=2, setcap=2, close=True)),
                 ("grow 2x2 max3 two ticks cut", MC_CUT, consts(max=3, ticks=2, setcap=3)),
                 ("all 3x1 cut", MC_CUT, consts(clients=3, rounds=1, sweeps=0, ticks=1, setcap=2, close=True))]
@@ -215,7 +214,7 @@ def run(ctx):
         # keep the stored finding cases, one simulation, and the whole V side
         mcs, gens, sims = [], [], sims[:1]
         ctx.notes.append("DEV MODE: exhaustive TLC runs skipped")
-    with ThreadPoolExecutor(max_workers=4 if not thorough else 2) as ex:
+    with ThreadPoolExecutor(max_workers=4 if not thorough else 3) as ex:
         f_mc = [ex.submit(do_mc, m) for m in mcs]
         f_gen = [ex.submit(do_gen, g) for g in gens]
         f_sim = [ex.submit(do_sim, s) for s in sims]
